@@ -218,6 +218,30 @@ class Table:
             if not isinstance(a, frozenset) and not (isinstance(a, (int, float)) and isinstance(b, (int, float))):
                 raise Unknown("ordering of non-numeric values")
             return {"le": a <= b, "lt": a < b, "ge": a >= b, "gt": a > b}[op]
+        if op == "dict":
+            out = {}
+            for kv in t[1:]:
+                if not (isinstance(kv, tuple) and len(kv) == 2):
+                    raise Unknown("dict entry")
+                out[self.ev(kv[0], env)] = self.ev(kv[1], env)
+            return out
+        if op == "sub[]" and len(t) == 3 and isinstance(t[1], tuple) and t[1] and (t[1][0] in ("dict", "list") or _mentions_table_literal(t[1])):
+            base = self.ev(t[1], env)
+            key = self.ev(t[2], env)
+            try:
+                return base[key]
+            except Exception:
+                raise Unknown("lookup of %r fails" % (key,))
+        if op == "mcall" and len(t) == 5 and t[2] == "get" and len(t[3]) in (2, 3) and t[4] == ("kws",):
+            base = self.ev(t[1], env)
+            if isinstance(base, dict):
+                key = self.ev(t[3][1], env)
+                dflt = self.ev(t[3][2], env) if len(t[3]) == 3 else None
+                try:
+                    return base.get(key, dflt)
+                except TypeError:
+                    raise Unknown("unhashable key")
+            raise Unknown("get on a non-dict")
         if op == "len" and len(t) == 2:
             return len(self.ev(t[1], env))
         if op == "call" and t[1] == "len" and len(t[2]) == 2 and t[3] == ("kws",):
@@ -246,6 +270,34 @@ class Table:
             if all(self.ev(c, env) for c in conds):
                 return i, leaf
         return None, None
+
+
+def drop_derived_features(tabs, doms):
+    """A feature whose term CONTAINS another feature and can be computed from it by the table evaluator is not an independent input: enumerating it freely
+    would produce combinations that no real argument can produce.  Such features are removed from the enumeration (they are evaluated on demand)."""
+    def subterms(t):
+        if isinstance(t, tuple):
+            for x in t:
+                if isinstance(x, tuple):
+                    yield x
+                    for y in subterms(x):
+                        yield y
+    out = dict(doms)
+    for f in sorted(doms, key=lambda z: -len(repr(z))):
+        inner = [g for g in out if g != f and any(g == st for st in subterms(f))]
+        if not inner:
+            continue
+        env = {g: out[g][0] for g in out if g != f}
+        for tab in tabs:
+            try:
+                tab.ev(f, env)
+            except Unknown:
+                continue
+            except Exception:
+                continue
+            del out[f]
+            break
+    return out
 
 
 def _canon(t):
@@ -748,6 +800,14 @@ def _decidable(tab, cond, env):
         return False
 
 
+def _mentions_table_literal(t):
+    if isinstance(t, tuple):
+        if t and t[0] == "dict":
+            return True
+        return any(_mentions_table_literal(x) for x in t)
+    return False
+
+
 def canon_expr(tab, t, env):
     """Canonical text of an arithmetic term modulo associativity, commutativity, constant folding, a-b = a+(-1)b, x/y = x*y^-1,
     sqrt(x) = x^0.5.  Sub-terms that are not arithmetic are kept as canonical atoms."""
@@ -805,6 +865,18 @@ def canon_expr(tab, t, env):
     if op == "free":
         return t[1]
     if op == "sub[]":
+        # a lookup in a literal table (dict / list of constants, possibly through .get) is folded when its key is decided by the environment
+        if _mentions_table_literal(t[1]):
+            try:
+                v = tab.ev(t, env)
+                if isinstance(v, (int, float)) and not isinstance(v, bool):
+                    return _fmt(float(v))
+                if isinstance(v, str) or v is None:
+                    return repr(v)
+            except Unknown:
+                pass
+            except Exception:
+                pass
         return "%s[%s]" % (canon_expr(tab, t[1], env), canon_expr(tab, t[2], env))
     if op == "list":
         return "[" + ",".join(canon_expr(tab, x, env) for x in t[1:]) + "]"
@@ -950,6 +1022,7 @@ def D8_formula_reference(repo, clause, funcs=("pair_coeffs", "bond_params", "ang
                 vals.append(12345.678)
             doms[f] = vals
         # nested features (a feature that occurs inside another feature's definition) are evaluated, not enumerated
+        doms = drop_derived_features((tc, tr), doms)
         order = sorted(doms, key=lambda f: len(repr(f)))
         total = 0
         mism = []
@@ -1008,7 +1081,7 @@ def D8_formula_reference(repo, clause, funcs=("pair_coeffs", "bond_params", "ang
             obs.append(Ob("D8", clause, fn, fn.node, False,
                           "%s DEVIATES from the documented formula on %d of %d abstract inputs; e.g. %s: %s is `%s`, documented `%s`" % (
                               name, len({repr(m[0]) for m in mism}), total, envtxt, what, str(got)[:160], str(want)[:160]),
-                          construct="def %s" % name, slot="formula:%s" % name, positive=anypos, undecided=not anypos))
+                          construct="def %s" % name, slot="formula:%s" % name, positive="robust" if anypos else False, undecided=not anypos))
     return obs
 
 
